@@ -105,7 +105,57 @@ fn cycle_source(blocks: usize, r: usize, kind: usize) -> String {
 /// Heuristic classification used only to name the family of a case that was killed: does some local or
 /// input (transitively) refer to itself? (analysis cost is exponential in the number of such references)
 pub fn has_reference_cycle(src: &str) -> bool {
+    cycle_kind(src).is_some()
+}
+
+fn graph_has_cycle(defs: &[(String, Vec<String>)]) -> bool {
+    let n = defs.len();
+    for start in 0..n {
+        let mut seen = vec![false; n];
+        let mut stack = vec![start];
+        while let Some(x) = stack.pop() {
+            if seen[x] {
+                continue;
+            }
+            seen[x] = true;
+            for y in 0..n {
+                if defs[x].1.iter().any(|t| *t == defs[y].0) {
+                    if y == start {
+                        return true;
+                    }
+                    if !seen[y] {
+                        stack.push(y);
+                    }
+                }
+            }
+        }
+    }
+    false
+}
+
+/// "reference-cycle": a local / input (transitively) mentions itself; "alias-cycle": a type alias does
+pub fn cycle_kind(src: &str) -> Option<&'static str> {
     let toks: Vec<String> = tokens::lex(src).into_iter().map(|t| t.text).collect();
+    // type aliases: type NAME = ... ;
+    let mut aliases: Vec<(String, Vec<String>)> = vec![];
+    let mut i = 0;
+    while i + 2 < toks.len() {
+        if toks[i] == "type" && toks[i + 2] == "=" {
+            let name = toks[i + 1].clone();
+            let mut body = vec![];
+            let mut k = i + 3;
+            while k < toks.len() && toks[k] != ";" {
+                body.push(toks[k].trim_end_matches('<').to_string());
+                k += 1;
+            }
+            aliases.push((name, body));
+            i = k;
+        }
+        i += 1;
+    }
+    if graph_has_cycle(&aliases) {
+        return Some("alias-cycle");
+    }
     let mut defs: Vec<(String, Vec<String>)> = vec![];
     let mut i = 0;
     while i < toks.len() {
@@ -166,34 +216,11 @@ pub fn has_reference_cycle(src: &str) -> bool {
         }
         i += 1;
     }
-    // reachability over "body mentions name"
-    let n = defs.len();
-    for start in 0..n {
-        let mut seen = vec![false; n];
-        let mut stack = vec![start];
-        let mut first = true;
-        while let Some(x) = stack.pop() {
-            if !first && x == start {
-                return true;
-            }
-            if seen[x] && !first {
-                continue;
-            }
-            first = false;
-            seen[x] = true;
-            for y in 0..n {
-                if defs[x].1.iter().any(|t| *t == defs[y].0) {
-                    if y == start {
-                        return true;
-                    }
-                    if !seen[y] {
-                        stack.push(y);
-                    }
-                }
-            }
-        }
+    if graph_has_cycle(&defs) {
+        Some("reference-cycle")
+    } else {
+        None
     }
-    false
 }
 
 pub fn front(src: &str) -> (String, Vec<Violation>) {
@@ -251,6 +278,10 @@ impl Prop for C12 {
         format!("{} deviations per focus rule; single token edits; nesting <= 64", grammar_k(tier))
     }
 
+    fn case_identity(&self, case: &Value) -> String {
+        case["src"].as_str().map(|s| s.to_string()).unwrap_or_else(|| case.to_string())
+    }
+
     fn enumerate(&self, tier: Tier, sink: &mut Sink) {
         // nesting: one escalation case per shape (depth 1, 2, ... until a depth needs more than a second),
         // then the bound of the property itself (depth 64) as an isolated case
@@ -300,10 +331,9 @@ impl Prop for C12 {
         // one family per abort signature: the grammar focus rule is too fine, the family is enough
         let fam = k.split(':').next().unwrap_or(k).to_string();
         let fam = if fam.starts_with("tokmut") { "tokmut".to_string() } else { fam };
-        if has_reference_cycle(case["src"].as_str().unwrap_or("")) {
-            format!("{fam}+reference-cycle")
-        } else {
-            fam
+        match cycle_kind(case["src"].as_str().unwrap_or("")) {
+            Some(k) => format!("{fam}+{k}"),
+            None => fam,
         }
     }
 
